@@ -44,6 +44,10 @@ CONCRETE = {   # abstract call kind of Tracker.tla -> concrete model_run calls
                 {"entry": "part", "part": "S_DECLARATION", "text": 'import "libm.so.6" { double j0(double x); double y1(double x); };'}],
     "extbad": [{"entry": "xta", "text": 'import "libc.so.6" { double j0(double x); };\nprocess P() { state A; init A; }\nsystem P;'},
                {"entry": "part", "part": "S_DECLARATION", "text": 'import "libc.so.6" { double y1(double x); };'}],
+    # a document that outlives its call, queries parsed against it later, and whole .xta texts in between
+    "keep": [{"keep_doc": True, "entry": "xml_buffer", "text": XML_OK}, {"keep_doc": True, "entry": "xta", "text": XTA_OK}],
+    "late": [{"late_queries": ["E<> i > 0", "A[] nosuch > 0", "E<> i +"], "query_builder": "tiga"}, {"late_queries": ["A[] i >= 0"], "query_builder": "property"}],
+    "xtaok": [{"entry": "xta", "text": XTA_OK}, {"entry": "xta", "text": "int q; process Z() { state A; init A; } system Z;"}],
     "dimabort": [{"entry": "part", "part": "S_DECLARATION", "text": "int a[int[0,1]][;"}, {"entry": "part", "part": "S_DECLARATION", "text": "typedef int[0,1] t; int a[t][t]["},
                  {"entry": "part", "part": "S_PARAMETERS", "text": "int &a[int[0,1]]["}],
     "array": [{"entry": "part", "part": "S_DECLARATION", "text": "int g[2]; int h[3][4]; int k[2] = {1, 2};"}, {"entry": "xta", "text": "int g[2][3];\n" + XTA_OK},
@@ -187,6 +191,8 @@ def record(r):
     if r.get("outcome") in ("signal", "timeout", "abnormal-exit", "harness-error"):
         return {"crash": r.get("outcome")}
     out = {"main": {k: r.get("main", {}).get(k) for k in ("outcome", "ret", "exc", "what")}}
+    if "kept_errors" in r:
+        out["kept_errors"] = [(e["msg"], e["path"], e["sl"], e["sc"], e["el"], e["ec"], e["str"]) for e in r["kept_errors"]]
     for part in ("queries", "exprs"):
         if part in r:
             out[part] = [{"outcome": q.get("outcome"), "ret": q.get("ret"), "exc": q.get("exc"),
@@ -209,7 +215,7 @@ def run(tier):
     vf.build_lib("plain")
     rnd = random.Random(c.seed)
     cfg = os.path.join(c.run_dir, "Tracker.cfg")
-    open(cfg, "w").write("CONSTANTS\n  M = 64\n  MaxCalls = %d\n  LlocReset = TRUE\n  TypesReset = TRUE\n  ResetBeforeReport = TRUE\n  ScalarPerBuilder = TRUE\n  NoSymbolCache = TRUE\nINIT Init\nNEXT Next\nINVARIANTS EmitHist\nCHECK_DEADLOCK FALSE\n" % (3 if quick else 4))
+    open(cfg, "w").write("CONSTANTS\n  M = 64\n  MaxCalls = %d\n  LlocReset = TRUE\n  TypesReset = TRUE\n  ResetBeforeReport = TRUE\n  ScalarPerBuilder = TRUE\n  NoSymbolCache = TRUE\n  XtaKeepsCounter = TRUE\nINIT Init\nNEXT Next\nINVARIANTS EmitHist\nCHECK_DEADLOCK FALSE\n" % (3 if quick else 4))
     mc = vf.run_tlc("Tracker", cfg, c.run_dir, timeout=1500, keep_out=False)
     c.add_tlc("Tracker", mc, "all call histories; HistoryIndependent evaluated on every state (counter scaled to M = 64)")
     hists = [e for e in mc.emitted if e["h"]]
@@ -238,8 +244,13 @@ def run(tier):
             calls[rnd.randrange(len(calls))]["set_position"] = rnd.choice(list(BIG.values()))
         jobs.append({"id": "r%d" % n, "calls": calls, "abstract": ks, "timeout": 120})
     for j in jobs:
+        last_keep = None
         for cl in j["calls"]:
             cl.setdefault("structure", True)
+            if cl.get("keep_doc"):
+                last_keep = {k: v for k, v in cl.items() if k in ("keep_doc", "entry", "text", "newxta")}
+            elif "late_queries" in cl and last_keep is not None:
+                cl["kept_model"] = last_keep          # the fresh reference parses the model the queries are about, and nothing else, first
     res = vf.run_jobs(jobs, c.run_dir, variant="plain", harness="replay_history", name="hist")
     ncalls = 0
     for j in jobs:
